@@ -35,6 +35,8 @@ def check(ctx):
     ctx.kani('autosar-data', specs)
     ctx.native_enum('name-compare-mixed-lengths', dict(module='element', check='name_cmp_sep', alphabet=b'ab012\xff', maxlen=10 if thorough else 9),
                     'compare_item_names laws on three names of different lengths over {a,b,0,1,2} (contains a2 / a10 / a1b)')
+    ctx.native_enum('value-compare-string-triples', dict(module='chardata', check='cmp_strings_sep', alphabet=b'0129.\xff', maxlen=9 if thorough else 8),
+                    'CharacterData::cmp laws on three String values of different lengths over {0,1,2,9,.} (numeric-looking and other texts)')
     # API-level bounded check of the statement itself on small sibling sets (native)
     b = ctx.native()
     rc, out, err, secs = run([b, 'api', 'sort3', '3'], timeout=900)
@@ -52,6 +54,31 @@ def check(ctx):
     else:
         ob = ctx.add(Obligation(ctx.prop, name, 'native-eval', 'bounded', 'failed', seconds=secs, bound=bound, detail='crashed: rc=%s %s' % (rc, err[-500:])))
         ob.witness = dict(instance='(panic inside sort)', observed=err[-500:], via='public API', replay=['api', 'sort3', '3'])
+        ctx._record_violation(ob)
+    # API-level bounded check on nested documents: adjacent-sibling swaps must not change the sorted text
+    from vxlib import corpus
+    docs = [d.encode() for d in corpus.SORT_DOCS + corpus.OWN_VALID] + [d for defect, d in corpus.fixtures(ctx.scratch.dir) if not defect]
+    p = ctx.scratch.path('c14_corpus.txt')
+    with open(p, 'w') as f:
+        for d in docs:
+            f.write(d.hex() + '\n')
+    rc, out, err, secs = run([b, 'api', 'sortdocs', p], timeout=1800)
+    ctx.t('native-enum', secs)
+    line = (out.strip().splitlines() or [''])[-1]
+    name = 'native/api-sort-nested-documents'
+    bound = '%d documents (own + repository fixtures that load strictly); every adjacent pair of sub-elements of every element whose type is not order-relevant is swapped once' % len(docs)
+    if line.startswith('OK'):
+        ctx.add(Obligation(ctx.prop, name, 'native-eval', 'bounded', 'discharged', seconds=secs, bound=bound,
+                           detail='sort: idempotent, keeps the element count and every identifiable path, and gives the same text after any single adjacent swap [%s sorts compared]' % line[3:]))
+    elif line.startswith('FAIL'):
+        msg, _, dochex = line[5:].partition(' :: document ')
+        ob = ctx.add(Obligation(ctx.prop, name, 'native-eval', 'bounded', 'failed', seconds=secs, bound=bound, detail=msg))
+        ob.witness = dict(input_hex=dochex.strip(), input_text=bytes.fromhex(dochex.strip()).decode('utf-8', 'replace'), observed=msg, via='public API: load_buffer, Element::move_element_here_at, AutosarModel::sort, serialize',
+                          replay=['api', 'sortdocs1', dochex.strip()])
+        ctx._record_violation(ob)
+    else:
+        ob = ctx.add(Obligation(ctx.prop, name, 'native-eval', 'bounded', 'failed', seconds=secs, bound=bound, detail='crashed: rc=%s %s' % (rc, err[-500:])))
+        ob.witness = dict(instance='(panic inside sort)', observed=err[-500:], via='public API', replay=['api', 'sortdocs', 'corpus'])
         ctx._record_violation(ob)
     return ctx.finish(
         explanation='`sort` is sort_by over Element::cmp, a lexicographic chain; "result independent of the previous order" and "never fails" need every link to be a total preorder consistent with equality. Complete Kani harnesses (all u64 / all f64 bit patterns, concrete kinds) discharge the laws for CharacterData::cmp on every kind triple CBMC can carry; the item-name link and the API-level statement are checked on small sibling sets natively (bounded). That sort only permutes, skips ordered containers and keeps indexes intact is element-graph code and not under contract.',
